@@ -586,3 +586,32 @@ def check_c10(ctx, R):
     _n3(ctx, R)
     _n4_n5_n6(ctx, R)
     _n7(ctx, R)
+    _n9(ctx, R)
+
+
+
+def _n9(ctx, R):
+    """legal form: the policy's legality test and the EDIF writer's validity test are two statements of one rule (what a plain
+    identifier — one without the & escape — may start with and contain).  They must describe the same class: where they differ, one
+    of them is wrong, and either illegal identifiers are accepted into an EDIF scope or legal ones are refused."""
+    from .edif_names_rules import writer_classes, reader_classes, EN
+    R.rule("N9", "legal form: the EDIF policy accepts exactly the plain identifiers the EDIF writer considers valid (first character and body)")
+    P = ctx.P
+    en = P.cls(EN, "EdififyNames")
+    ec = P.cls(NS_EDIF, "EdifNamespace")
+    good = en.methods.get("_characters_good")
+    chk = ec.methods.get("_check_EDIF_identifier")
+    if good is None or chk is None:
+        raise AnalysisError("anchor vanished: _characters_good / _check_EDIF_identifier")
+    wf, wb = writer_classes(good)
+    rf, rb, rba, lens = reader_classes(chk)
+    for what, w_, r_ in (("first character", wf, rf), ("later characters", wb, rb)):
+        if w_ == r_:
+            R.ok("N9", "%s: policy and writer agree (%d characters)" % (what, len(w_)), chk.loc())
+        else:
+            more, less = "".join(sorted(r_ - w_)), "".join(sorted(w_ - r_))
+            R.bad("N9", "%s|%s|+%s-%s" % (chk.key, what, more, less), chk.loc(),
+                  "the EDIF policy and the EDIF writer disagree on the %s of a plain identifier: the policy accepts %r that the writer treats as illegal%s — "
+                  "identifiers of illegal form are let into an EDIF scope (or legal ones refused)"
+                  % (what, more, (" and refuses %r that the writer produces" % less) if less else ""))
+    R.count("legal-form classes compared (N9)", 2)
